@@ -11,3 +11,4 @@ INVARIANT QueryCorrect
 INVARIANT InfIsWholeGrid
 INVARIANT TreeFresh
 INVARIANT ItemCorrect
+PROPERTY RejectIsAtomic
